@@ -15,6 +15,7 @@ package main
 import (
 	"bytes"
 	"context"
+	"encoding/json"
 	"errors"
 	"fmt"
 	"os"
@@ -270,6 +271,9 @@ func main() {
 			}
 		}
 	}
+	if gridReplay(run) {
+		return
+	}
 	if common.HandleReplay(run, jobs, func(name string) sched.Scenario {
 		if mk, ok := specs[name]; ok {
 			return mk()
@@ -327,53 +331,7 @@ func rangeTaskPart(run *ev.Run, extra map[string]any) {
 					for _, rpt := range []int{1, 2} {
 						for fail := -1; fail < 3; fail++ {
 							cases++
-							var mu sync.Mutex
-							var got []kv.KeyRange
-							n := 0
-							h := func(ctx context.Context, r kv.KeyRange) (rangetask.TaskStat, error) {
-								mu.Lock()
-								defer mu.Unlock()
-								i := n
-								n++
-								if i == fail {
-									return rangetask.TaskStat{FailedRegions: 1}, errors.New("injected sub-range failure")
-								}
-								got = append(got, kv.KeyRange{StartKey: append([]byte{}, r.StartKey...), EndKey: append([]byte{}, r.EndKey...)})
-								return rangetask.TaskStat{CompletedRegions: 1}, nil
-							}
-							r := rangetask.NewRangeTaskRunner("verif", st, conc, h)
-							r.SetRegionsPerTask(rpt)
-							err := r.RunOnRange(context.Background(), []byte(s), []byte(e))
-							desc := fmt.Sprintf("layout=%v range=[%q,%q) concurrency=%d regionsPerTask=%d fail=%d", lo, s, e, conc, rpt, fail)
-							failed := fail >= 0 && fail < n
-							if failed != (err != nil) {
-								run.Violation("rangetask:failure-not-reported", fmt.Sprintf("%s: handler failed=%v but RunOnRange returned %v", desc, failed, err), desc)
-							}
-							if failed {
-								continue
-							}
-							sort.Slice(got, func(i, j int) bool { return bytes.Compare(got[i].StartKey, got[j].StartKey) < 0 })
-							cur := []byte(s)
-							ok := true
-							for i, g := range got {
-								if !bytes.Equal(g.StartKey, cur) {
-									ok = false
-								}
-								if len(g.EndKey) == 0 && i != len(got)-1 {
-									ok = false
-								}
-								cur = g.EndKey
-							}
-							if len(got) == 0 || !bytes.Equal(cur, []byte(e)) {
-								ok = false
-							}
-							if !ok {
-								var rs []string
-								for _, g := range got {
-									rs = append(rs, fmt.Sprintf("[%q,%q)", g.StartKey, g.EndKey))
-								}
-								run.Violation("rangetask:sub-ranges-do-not-tile-the-range", fmt.Sprintf("%s: handler saw %v", desc, rs), desc)
-							}
+							rangeTaskCase(run, st, gridCase{Part: "B", Layout: lo, S: s, E: e, Conc: conc, RPT: rpt, Fail: fail})
 						}
 					}
 				}
@@ -387,41 +345,7 @@ func rangeTaskPart(run *ev.Run, extra map[string]any) {
 				}
 				for _, conc := range []int{1, 3} {
 					delCases++
-					txn, _ := st.Begin()
-					for _, k := range pool {
-						txn.Set([]byte(k), []byte("v"+k))
-					}
-					if err := txn.Commit(context.Background()); err != nil {
-						run.Note("delete-range seed commit failed: %v", err)
-						continue
-					}
-					// the secondaries are committed in the background: wait until no lock is left, so that
-					// the delete-range does not race with them (a lock whose primary was deleted could
-					// not be resolved any more)
-					for i := 0; i < 2000 && len(b.Locks()) > 0; i++ {
-						time.Sleep(time.Millisecond)
-					}
-					if len(b.Locks()) > 0 {
-						run.Note("delete-range: seed transaction still has locks; case skipped")
-						continue
-					}
-					t := rangetask.NewDeleteRangeTask(st, []byte(s), []byte(e), conc)
-					err := t.Execute(context.Background())
-					desc := fmt.Sprintf("layout=%v delete-range=[%q,%q) concurrency=%d", lo, s, e, conc)
-					if err != nil {
-						run.Violation("deleterange:error", desc+": "+err.Error(), desc)
-						continue
-					}
-					ts, _ := st.CurrentTimestamp("global")
-					snap := st.GetSnapshot(ts)
-					for _, k := range pool {
-						_, gerr := snap.Get(context.Background(), []byte(k))
-						gone := tikverr.IsErrNotFound(gerr)
-						want := k >= s && (e == "" || k < e)
-						if gone != want {
-							run.Violation("deleterange:wrong-keys-removed", fmt.Sprintf("%s: key %q removed=%v, expected %v", desc, k, gone, want), desc)
-						}
-					}
+					deleteRangeStaticCase(run, b, st, pool, gridCase{Part: "C", Layout: lo, S: s, E: e, Conc: conc})
 				}
 			}
 		}
@@ -429,6 +353,108 @@ func rangeTaskPart(run *ev.Run, extra map[string]any) {
 	}
 	extra["range_task_cases"] = cases
 	extra["delete_range_cases"] = delCases
+}
+
+// gridCase identifies one case of the plain enumerations (parts B, C, C2); it is the replay artefact.
+type gridCase struct {
+	Part   string   `json:"part"`
+	Layout []string `json:"layout"`
+	S      string   `json:"start"`
+	E      string   `json:"end"`
+	Conc   int      `json:"concurrency"`
+	RPT    int      `json:"regions_per_task,omitempty"`
+	Fail   int      `json:"failing_sub_range"`
+	Plan   []string `json:"split_before_delivery,omitempty"`
+}
+
+func rangeTaskCase(run *ev.Run, st *tikv.KVStore, gc gridCase) {
+	lo, s, e, conc, rpt, fail := gc.Layout, gc.S, gc.E, gc.Conc, gc.RPT, gc.Fail
+	var mu sync.Mutex
+	var got []kv.KeyRange
+	n := 0
+	h := func(ctx context.Context, r kv.KeyRange) (rangetask.TaskStat, error) {
+		mu.Lock()
+		defer mu.Unlock()
+		i := n
+		n++
+		if i == fail {
+			return rangetask.TaskStat{FailedRegions: 1}, errors.New("injected sub-range failure")
+		}
+		got = append(got, kv.KeyRange{StartKey: append([]byte{}, r.StartKey...), EndKey: append([]byte{}, r.EndKey...)})
+		return rangetask.TaskStat{CompletedRegions: 1}, nil
+	}
+	r := rangetask.NewRangeTaskRunner("verif", st, conc, h)
+	r.SetRegionsPerTask(rpt)
+	err := r.RunOnRange(context.Background(), []byte(s), []byte(e))
+	desc := fmt.Sprintf("layout=%v range=[%q,%q) concurrency=%d regionsPerTask=%d fail=%d", lo, s, e, conc, rpt, fail)
+	failed := fail >= 0 && fail < n
+	if failed != (err != nil) {
+		run.Violation("rangetask:failure-not-reported", fmt.Sprintf("%s: handler failed=%v but RunOnRange returned %v", desc, failed, err), gc)
+	}
+	if failed {
+		return
+	}
+	sort.Slice(got, func(i, j int) bool { return bytes.Compare(got[i].StartKey, got[j].StartKey) < 0 })
+	cur := []byte(s)
+	ok := true
+	for i, g := range got {
+		if !bytes.Equal(g.StartKey, cur) {
+			ok = false
+		}
+		if len(g.EndKey) == 0 && i != len(got)-1 {
+			ok = false
+		}
+		cur = g.EndKey
+	}
+	if len(got) == 0 || !bytes.Equal(cur, []byte(e)) {
+		ok = false
+	}
+	if !ok {
+		var rs []string
+		for _, g := range got {
+			rs = append(rs, fmt.Sprintf("[%q,%q)", g.StartKey, g.EndKey))
+		}
+		run.Violation("rangetask:sub-ranges-do-not-tile-the-range", fmt.Sprintf("%s: handler saw %v", desc, rs), gc)
+	}
+}
+
+func deleteRangeStaticCase(run *ev.Run, b *txnh.MockBackend, st *tikv.KVStore, pool []string, gc gridCase) {
+	lo, s, e, conc := gc.Layout, gc.S, gc.E, gc.Conc
+	txn, _ := st.Begin()
+	for _, k := range pool {
+		txn.Set([]byte(k), []byte("v"+k))
+	}
+	if err := txn.Commit(context.Background()); err != nil {
+		run.Note("delete-range seed commit failed: %v", err)
+		return
+	}
+	// the secondaries are committed in the background: wait until no lock is left, so that
+	// the delete-range does not race with them (a lock whose primary was deleted could
+	// not be resolved any more)
+	for i := 0; i < 2000 && len(b.Locks()) > 0; i++ {
+		time.Sleep(time.Millisecond)
+	}
+	if len(b.Locks()) > 0 {
+		run.Note("delete-range: seed transaction still has locks; case skipped")
+		return
+	}
+	t := rangetask.NewDeleteRangeTask(st, []byte(s), []byte(e), conc)
+	err := t.Execute(context.Background())
+	desc := fmt.Sprintf("layout=%v delete-range=[%q,%q) concurrency=%d", lo, s, e, conc)
+	if err != nil {
+		run.Violation("deleterange:error", desc+": "+err.Error(), gc)
+		return
+	}
+	ts, _ := st.CurrentTimestamp("global")
+	snap := st.GetSnapshot(ts)
+	for _, k := range pool {
+		_, gerr := snap.Get(context.Background(), []byte(k))
+		gone := tikverr.IsErrNotFound(gerr)
+		want := k >= s && (e == "" || k < e)
+		if gone != want {
+			run.Violation("deleterange:wrong-keys-removed", fmt.Sprintf("%s: key %q removed=%v, expected %v", desc, k, gone, want), gc)
+		}
+	}
 }
 
 // ---- part C2: delete range while the topology changes under the task ----
@@ -494,6 +520,7 @@ func contains(l []string, k string) bool {
 }
 
 func deleteRangeCase(run *ev.Run, lo, pool []string, s, e string, conc int, plan []string) (fired bool) {
+	gc := gridCase{Part: "C2", Layout: lo, S: s, E: e, Conc: conc, Plan: plan}
 	b := txnh.NewMockBackend(1, lo...)
 	w := txnh.NewWorld(b, 1)
 	defer w.Close()
@@ -533,7 +560,7 @@ func deleteRangeCase(run *ev.Run, lo, pool []string, s, e string, conc int, plan
 	w.BeforeRPC = nil
 	mu.Unlock()
 	if err != nil {
-		run.Violation("deleterange:error-after-split", desc+": "+err.Error(), desc)
+		run.Violation("deleterange:error-after-split", desc+": "+err.Error(), gc)
 		return
 	}
 	ts, _ := st.CurrentTimestamp("global")
@@ -543,10 +570,60 @@ func deleteRangeCase(run *ev.Run, lo, pool []string, s, e string, conc int, plan
 		gone := tikverr.IsErrNotFound(gerr)
 		want := k >= s && (e == "" || k < e)
 		if gone != want {
-			run.Violation("deleterange:wrong-keys-removed:split-before-delivery", fmt.Sprintf("%s: key %q removed=%v, expected %v", desc, k, gone, want), desc)
+			run.Violation("deleterange:wrong-keys-removed:split-before-delivery", fmt.Sprintf("%s: key %q removed=%v, expected %v", desc, k, gone, want), gc)
 		}
 	}
 	return
+}
+
+// gridReplay re-runs one case of parts B, C, C2 from a replay file (--replay <file>).
+func gridReplay(run *ev.Run) bool {
+	file := ""
+	for i, a := range os.Args {
+		if a == "--replay" && i+1 < len(os.Args) {
+			file = os.Args[i+1]
+		}
+	}
+	if file == "" {
+		return false
+	}
+	raw, err := os.ReadFile(file)
+	if err != nil {
+		return false
+	}
+	var rf struct {
+		Property string   `json:"property"`
+		Key      string   `json:"key"`
+		Replay   gridCase `json:"replay"`
+	}
+	if json.Unmarshal(raw, &rf) != nil || rf.Replay.Part == "" {
+		return false
+	}
+	gc := rf.Replay
+	rr := run
+	pool := []string{"a", "b", "c", "d"}
+	switch gc.Part {
+	case "B", "C":
+		b := txnh.NewMockBackend(1, gc.Layout...)
+		w := txnh.NewWorld(b, 1)
+		if gc.Part == "B" {
+			rangeTaskCase(rr, w.Clients[0].Store, gc)
+		} else {
+			deleteRangeStaticCase(rr, b, w.Clients[0].Store, pool, gc)
+		}
+		w.Close()
+	case "C2":
+		deleteRangeCase(rr, gc.Layout, []string{"a", "ab", "b", "bb", "c", "cc", "d", "dd"}, gc.S, gc.E, gc.Conc, gc.Plan)
+	default:
+		return false
+	}
+	if rr.Hit(rf.Key) {
+		fmt.Printf("VIOLATION property=C14 replay=%s\n", file)
+		os.Exit(1)
+	}
+	fmt.Println("replay: the case no longer fails")
+	os.Exit(0)
+	return true
 }
 
 // ---- part D: safe point ----
